@@ -200,7 +200,7 @@ unquote = Fn(P, 'unquote', ret='r',
                   Rw('new_str.remove(0);', 'vx_remove_first(&mut new_str);', rule='R12', why='String::remove(0): requires a non-empty string (panics otherwise)'),
                   Rw('new_str.pop();', 'vx_pop_last(&mut new_str);', rule='R12', why='String::pop (None on an empty string: no panic)')],
     # C05: never panics, also for a lone quote character; and what it returns is the text or the text without its surrounding pair of quotes
-    ensures=[('C05+C09.unquote.result_is_the_text_or_the_text_without_its_surrounding_quotes',
+    ensures=[('C05+C09+C10.unquote.result_is_the_text_or_the_text_without_its_surrounding_quotes',
               'r@ == text@ || (text@.len() >= 1 && r@ == text@.subrange(1, if text@.len() >= 2 { text@.len() - 1 } else { 1 }))')],
     loops={0: Loop(invariant_except_break=[('C05.inv.unquote.untouched_so_far', 'new_str@ == text@')],
                    ensures=[('C05.inv.unquote.shape', 'new_str@ == text@ || (text@.len() >= 1 && new_str@ == text@.subrange(1, if text@.len() >= 2 { text@.len() - 1 } else { 1 }))')])},
